@@ -582,6 +582,10 @@ def seq_items_concrete(s):
 
 def eq(E, a, b):
     """== ; returns bool / SBool"""
+    if hasattr(a, "pyvc_eq"):
+        return a.pyvc_eq(E, b)
+    if hasattr(b, "pyvc_eq"):
+        return b.pyvc_eq(E, a)
     if isinstance(a, SOpt):
         if b is None:
             return wrap_bool(a.isnone)
@@ -1180,6 +1184,8 @@ def m_type(E, v, *rest):
 def m_int(E, v=0, base=None):
     if isinstance(v, SOpt):
         v = E.deopt(v)
+    if hasattr(v, "pyvc_int"):
+        return v.pyvc_int(E)
     if isinstance(v, bool):
         return int(v)
     if isinstance(v, (int, SInt)):
